@@ -929,15 +929,31 @@ func (in *inliner) cannotChangeFields(fi *FuncInfo, fields map[string]bool, dept
 			switch o := callee(info, x).(type) {
 			case *types.Builtin:
 			case *types.Func:
-				if o.Type().(*types.Signature).Recv() == nil && o.Pkg() != nil && !strings.HasPrefix(o.Pkg().Path(), modPath) {
-					return true // a package-level function of another module
+				if o.Pkg() != nil && !strings.HasPrefix(o.Pkg().Path(), modPath) {
+					if rv := o.Type().(*types.Signature).Recv(); rv == nil || !types.IsInterface(rv.Type()) {
+						return true // a function, or a method of a concrete type, of another module: it knows nothing of these fields
+					}
+				}
+				if osig := o.Type().(*types.Signature); osig.Recv() != nil {
+					if _, isIface := osig.Recv().Type().Underlying().(*types.Interface); isIface {
+						if !in.ifaceMethodLeavesFields(info, x, fields, depth) {
+							ok = false
+						}
+						return true
+					}
 				}
 				cfi := in.r.Decls[o]
 				if cfi == nil || baselineFuncs[funcKey(o)] || !in.cannotChangeFields(cfi, fields, depth+1) {
 					ok = false
 				}
 			default:
-				ok = false // a function value, an interface method
+				resolved := in.ifaceMethodLeavesFields(info, x, fields, depth)
+				if !resolved {
+					if os.Getenv("GDV_DEBUG_INLINE") != "" {
+						fmt.Fprintf(os.Stderr, "cannotChangeFields: unresolved call %s in %s\n", exprStr(x), fi.Fn.Name())
+					}
+					ok = false // a function value, or an interface method with an implementation that could
+				}
 			}
 		}
 		return true
@@ -1397,6 +1413,9 @@ func (in *inliner) inline(site inlSite, call *ast.CallExpr, dest inlDest) ([]ast
 			case nres == 0 || len(dst) == 0:
 				// results dropped: still evaluate the operands
 				for _, e := range ret.Results {
+					if pureOperand(e) {
+						continue // `_ = nil` does not compile, and a name or a literal has nothing to evaluate
+					}
 					out = append(out, &ast.AssignStmt{Lhs: []ast.Expr{ast.NewIdent("_")}, Tok: token.ASSIGN, Rhs: []ast.Expr{e}})
 				}
 			case len(ret.Results) == 0:
@@ -1411,6 +1430,9 @@ func (in *inliner) inline(site inlSite, call *ast.CallExpr, dest inlDest) ([]ast
 				for k := range dst {
 					if b, ok := ast.Unparen(ret.Results[k]).(*ast.Ident); ok && b.Name == dst[k].(*ast.Ident).Name {
 						continue
+					}
+					if dst[k].(*ast.Ident).Name == "_" && pureOperand(ret.Results[k]) {
+						continue // a dropped result that is a name or a literal (`_ = nil` does not compile)
 					}
 					l = append(l, ast.NewIdent(dst[k].(*ast.Ident).Name))
 					rr = append(rr, ret.Results[k])
@@ -1459,4 +1481,50 @@ func (in *inliner) inline(site inlSite, call *ast.CallExpr, dest inlDest) ([]ast
 	}
 	pre = append(pre, &ast.BlockStmt{List: inner})
 	return pre, res, true
+}
+
+
+// pureOperand: a name or a literal — evaluating it has no effect.
+func pureOperand(e ast.Expr) bool {
+	switch ast.Unparen(e).(type) {
+	case *ast.Ident, *ast.BasicLit:
+		return true
+	}
+	return false
+}
+
+
+// ifaceMethodLeavesFields: the call is a call of an interface method, and every implementation of that method in this module
+// leaves fields with these names alone.
+func (in *inliner) ifaceMethodLeavesFields(info *types.Info, x *ast.CallExpr, fields map[string]bool, depth int) bool {
+	sel, isSel := ast.Unparen(x.Fun).(*ast.SelectorExpr)
+	if !isSel {
+		return false
+	}
+	s := info.Selections[sel]
+	if s == nil || s.Kind() != types.MethodVal {
+		return false
+	}
+	iface, isIface := s.Recv().Underlying().(*types.Interface)
+	if !isIface {
+		return false
+	}
+	n := 0
+	for fn, cfi := range in.r.Decls {
+		sig, _ := fn.Type().(*types.Signature)
+		if sig == nil || sig.Recv() == nil || fn.Name() != sel.Sel.Name {
+			continue
+		}
+		rt := sig.Recv().Type()
+		if !types.Implements(rt, iface) {
+			if _, isPtr := rt.(*types.Pointer); isPtr || !types.Implements(types.NewPointer(rt), iface) {
+				continue
+			}
+		}
+		n++
+		if !in.cannotChangeFields(cfi, fields, depth+1) {
+			return false
+		}
+	}
+	return n > 0
 }
